@@ -446,6 +446,11 @@ pub fn run(args: &Args, rep: &mut Report) {
             }
         };
         let has = |needle: &str| xml.contains(needle);
+        for (feat, needle) in [("history", "<history"), ("state-datamodel", "<data id=\"sd_"), ("invoke", "<invoke"), ("finalize", "<finalize"), ("donedata", "<donedata"), ("foreach", "<foreach"), ("send", "<send"), ("parallel", "<parallel")] {
+            if xml.contains(needle) {
+                rep.count(&format!("models_with_{}", feat), 1);
+            }
+        }
         if has("<invoke") || has("<donedata") || (has("<foreach") && has("<elseif")) {
             rep.nontrivial_key(&format!("model:{}", name));
         } else if has("<foreach") || has("<if") {
@@ -461,7 +466,7 @@ pub fn run(args: &Args, rep: &mut Report) {
         }
         // behaviour: the reloaded machine produces the same observable trace
         if let (Some(doc), Some(re)) = (doc, reloaded) {
-            if behaviour_budget > 0 && doc.dm != crate::docgen::Dm::Null {
+            if behaviour_budget > 0 && doc.dm != crate::docgen::Dm::Null && !xml.contains("<invoke") {
                 behaviour_budget -= 1;
                 let f = match crate::refsim::Flat::from_doc(doc) {
                     Ok(f) => f,
